@@ -12,6 +12,17 @@ echo "$dout" | grep -E "^VIOLATION"
 [ $drc -eq 1 ] && rc=1
 [ $drc -eq 2 ] && [ $rc -eq 0 ] && { echo "HARNESS-ERROR debug-profile run failed" >&2; exit 2; }
 dcalls=$(sed -n 's/.*"parse_calls_total": \([0-9]*\).*/\1/p' "$tmp" | head -1); rm -f "$tmp"
+# the other built variants (code that only exists at their cfg-lattice points) run a slice of the plan
+for vname in sse42-ct avx2-ct swar nostd; do
+    vbin=$("$VERIF_DIR/variants.sh" build $vname) || { echo "HARNESS-ERROR variant $vname does not build" >&2; exit 2; }
+    vtmp="$VERIF_DIR/work/C01-$vname-$$.json"
+    vout=$(VERIF_SCALE=0.08 VERIF_EVIDENCE_OUT="$vtmp" VERIF_VARIANT=$vname "$vbin" check C01 "$tier" 2>&1); vrc=$?
+    echo "$vout" | grep -E "^\s+(runs=|\[C01\])" | sed "s/^ */  [C01 $vname] /" | cut -c1-260
+    echo "$vout" | grep -E "^VIOLATION"
+    [ $vrc -eq 1 ] && rc=1
+    [ $vrc -eq 2 ] && [ $rc -eq 0 ] && { echo "HARNESS-ERROR variant $vname run failed" >&2; exit 2; }
+    rm -f "$vtmp"
+done
 # Miri batch (crate as is: SWAR under Miri)
 mout=$(MIRI_TIMEOUT=$([ "$tier" = thorough ] && echo 6000 || echo 1500) run_miri "$VERIF_DIR/sim" "" "" miri C01 0 "$mruns" "$SEED")
 mline=$(echo "$mout" | grep -E "^MIRI-CONN" | head -1)
